@@ -13,7 +13,9 @@ ASSUMPTIONS = [
     "(keys, add, remove, mro, ...), which collide with the mechanism by construction",
 ]
 
-RESERVED = set(dir(type)) | {"keys", "add", "remove"}
+RESERVED = (set(dir(type)) | {"keys", "add", "remove"}) - {"mro"}
+# names an enumeration inherits from `type` without carrying them: they are not keys (asking hasattr() says nothing about them)
+INHERITED = {"mro"}
 
 
 NAMES = []
@@ -32,7 +34,7 @@ def name_pool():
             "update", "pop", "dict", "enum", "data", "result", "bases", "attrs",
             # words for "nothing found", defaults and bookkeeping
             "NOT_FOUND", "not_found", "NOTFOUND", "DEFAULT", "default", "MISSING", "missing", "UNKNOWN", "unknown", "NONE", "EMPTY", "table", "_table", "cache", "_cache",
-            "lookup", "reverse", "names", "members", "_keys", "_values", "by_value", "index",
+            "lookup", "reverse", "names", "members", "_keys", "_values", "by_value", "index", "mro",
             # names as the standards spell them (not Python identifiers) and identifiers next to Python's reserved words
             "3RD_PARTY_COPY_OUT", "READ(12)", "WRITE 12", "PRE-FETCH", "A.B", "", " ", "in_", "from_", "is_", "class_", "in", "is", "from", "None_", "IN_", "out_"]
     # ... and the same words in another case: names are case-sensitive
@@ -68,6 +70,10 @@ def kind_name(v):
     if callable(v):
         return "callable:" + type(v).__name__
     return type(v).__name__
+
+
+class StrSub(str):
+    pass
 
 
 class WithValue:
@@ -127,7 +133,7 @@ def compare(ctx, enums, wit, step):
             continue
         # names that were never supplied, or were removed, are not there (exactly the supplied names)
         for k in NAMES:
-            if k not in model:
+            if k not in model and k not in INHERITED:
                 ctx.count("absent_names_probed")
                 if hasattr(E, k):
                     ctx.fail("C18:absent_name_answers", "enum %d (%s): name %r is not among the names %r but E.%s answers %r after %s" % (idx, form, k, sorted(model)[:6], k, getattr(E, k), step), wit)
@@ -138,6 +144,9 @@ def compare(ctx, enums, wit, step):
             except AttributeError as e:
                 ctx.fail("C18:lookup_missing", "enum %d: name %r not readable after %s" % (idx, k, step), wit, exc=e)
                 continue
+            if isinstance(v, (dict, list)) and got is not v:
+                ctx.fail("C18:lookup_value_is_a_copy.%s" % kind_name(v), "enum %d: %s answers an equal but different object than the one supplied (the caller's later edits of his %s would not be seen) after %s"
+                         % (idx, k, kind_name(v), step), wit)
             same = got is v or got == v
             if not same and kind_name(v) == "callable:method":
                 same = got == v
@@ -291,6 +300,9 @@ def run(shard, ctx):
             op = rng.choice(["add", "add", "remove", "remove", "lookup", "reverse", "keys"] if look_every == 1 else ["add", "remove", "remove", "remove", "add"])
             if op == "add":
                 k = rng.choice(names)
+                if rng.random() < 0.15:
+                    k = StrSub(k)  # a name that is a str (an enum.StrEnum member, a user's subclass of str): the same name
+                    ctx.count("names_of_str_subclasses")
                 v = rng.choice(list(model.values())) if model and rng.random() < 0.3 else rng.choice(ks)()
                 log.append(("add", idx, k, kind_name(v), k in model))
                 try:
